@@ -584,7 +584,7 @@ def lin_parts(draw):
 
 
 @st.composite
-def placed_boxes(draw, label, other, maxt=10, max_side=30, extents=(2e3, 2e4, 1e5, 2.5e5)):
+def placed_boxes(draw, label, other, maxt=10, max_side=30, extents=(2e3, 2e4, 1e5, 2.5e5), max_px=None):
     """Recipe for a raster centred at a lon/lat inside the valid area of ``label`` and ``other``."""
     x0, y0, x1, y1 = _common_box(label, other)
     lon = draw(st.integers(math.ceil(x0 * 100), math.floor(x1 * 100))) / 100
@@ -593,7 +593,7 @@ def placed_boxes(draw, label, other, maxt=10, max_side=30, extents=(2e3, 2e4, 1e
     extent_m = draw(st.sampled_from(list(extents)))
     lin, klass = draw(lin_parts())
     return {
-        "crs": draw(spelled(label)), "lonlat": [lon, lat], "shape": shape, "px": min(extent_m / max(shape), MAX_PX_M),
+        "crs": draw(spelled(label)), "lonlat": [lon, lat], "shape": shape, "px": min(extent_m / max(shape), max_px or MAX_PX_M),
         "lin": lin, "klass": klass, "tiles": draw(tilings(shape, maxt)),
     }
 
@@ -662,11 +662,25 @@ def s_query_other(draw):
     return {"rec": rec, "q": q, "qcrs": draw(spelled(lb)), "mode": mode}
 
 
+@st.composite
+def s_query_dense(draw):
+    """Continental rasters (1000-3000 km across, tiles tens of km) queried with *densified* polygons given in another
+    CRS: the outline the caller hands over already follows its true (curved) shape in the raster's CRS, so every tile
+    under the bulge of an edge is decided, not lost in the ambiguity band of a sparse outline."""
+    la, lb = draw(st.sampled_from([p for p in LABEL_PAIRS if p[0] in ("3577", "3035", "32633", "32755", "sinu") and p[1] in ("4326", "4283", "3857", "6933")]))
+    rec = draw(placed_boxes(la, lb, maxt=6, max_side=48, extents=(1e6, 2e6, 3e6), max_px=2e5))
+    ye, xe = layout_edges(rec["shape"], rec["tiles"])
+    q = draw(pix_queries(rec["shape"], ye, xe, far=(1,), maxlen=1.0, kinds=("box", "box", "tri", "L", "hole")))
+    return {"rec": rec, "q": q, "qcrs": draw(spelled(lb)), "mode": "geom", "dense": draw(st.sampled_from([12, 24, 48])),
+            "box_in_b": draw(st.sampled_from([True, True, False]))}
+
+
 def o_query_other(case, T):
     import shapely
     from odc.geo.geom import BoundingBox, Geometry
 
     rec, q, mode = case["rec"], case["q"], case["mode"]
+    DENSE = int(case.get("dense") or 0)
     if _shp(q) is None:
         T.exclude("degenerate_query")
         return
@@ -684,6 +698,22 @@ def o_query_other(case, T):
         return _project(la, lb, _apply(A, ring_px))
 
     parts_b = [(to_b(e), [to_b(h) for h in hh]) for e, hh in _parts(q)]  # the query polygon(s) in CRS b
+    if case.get("box_in_b") and all(np.isfinite(e).all() for e, _ in parts_b):
+        # the query is a rectangle in ITS crs (a lon/lat band, a map sheet): its own bounding box there is tight, and
+        # in the raster's crs its edges bulge beyond the quadrilateral of the four projected corners
+        def _bb_ring(e):
+            (x0, y0), (x1, y1) = e.min(axis=0), e.max(axis=0)
+            return np.array([[x0, y0], [x1, y0], [x1, y1], [x0, y1]])
+
+        parts_b = [(_bb_ring(e), []) for e, _ in parts_b[:1]]
+        if not (parts_b[0][0][2] > parts_b[0][0][0]).all():
+            T.exclude("degenerate_query")
+            return
+        T.cls("query_is_a_rectangle_in_its_own_crs")
+    if DENSE and all(np.isfinite(r).all() for e, hh in parts_b for r in [e] + hh):
+        # same polygon (edges straight in b), handed over with DENSE extra vertices per edge
+        parts_b = [(_ring_dense(e, DENSE), [_ring_dense(h, DENSE) for h in hh]) for e, hh in parts_b]
+        EXTRA = 3
     if not all(np.isfinite(r).all() for e, hh in parts_b for r in [e] + hh):
         T.exclude("query_not_projectable")
         return
@@ -1348,6 +1378,7 @@ def build(chk: Check) -> None:
     chk.sub("graph_global_src", o_graph_global, strategy=s_graph_global(), n={"quick": 150, "thorough": 6000}, budget_s={"quick": 60, "thorough": 150}, shrink=False)
     chk.sub("query_geom_same", o_geom_same, cov={"quick": 400, "thorough": 30000}, strategy=s_geom_same(), n={"quick": 1600, "thorough": 80000}, budget_s={"quick": 60, "thorough": 140})
     chk.sub("query_bbox_same", o_bbox_same, strategy=s_bbox_same(), n={"quick": 1000, "thorough": 50000}, budget_s={"quick": 60, "thorough": 110})
+    chk.sub("query_dense_curved", o_query_other, strategy=s_query_dense(), n={"quick": 400, "thorough": 20000}, budget_s={"quick": 60, "thorough": 200})
     chk.sub("query_other_crs", o_query_other, strategy=s_query_other(), n={"quick": 1400, "thorough": 70000}, budget_s={"quick": 60, "thorough": 140})
     chk.sub("graph_linear", o_graph_linear, cov={"quick": 300, "thorough": 20000}, strategy=s_graph_linear(), n={"quick": 800, "thorough": 30000}, budget_s={"quick": 60, "thorough": 140})
     chk.sub("graph_rotated", o_graph_rot, strategy=s_graph_rot(), n={"quick": 300, "thorough": 12000}, budget_s={"quick": 60, "thorough": 110})
